@@ -103,10 +103,24 @@ type tables struct {
 	bodyIdx  map[string]int
 	blobIdx  map[string]int // canonical JSON of ScheduledBackup / OpsMCP values -> id
 	transIdx map[string]int
+	srefs    []string // distinct observed states (SR body applied checksum valid checksum_ok)
+	srefIdx  map[string]int
+	results  []string // distinct ApplyResults
+	resIdx   map[string]int
 }
 
 func newTables() *tables {
-	return &tables{bodyIdx: map[string]int{}, blobIdx: map[string]int{}, transIdx: map[string]int{}}
+	return &tables{bodyIdx: map[string]int{}, blobIdx: map[string]int{}, transIdx: map[string]int{}, srefIdx: map[string]int{}, resIdx: map[string]int{}}
+}
+
+func intern(list *[]string, idx map[string]int, term string) uint64 {
+	if i, ok := idx[term]; ok {
+		return uint64(i)
+	}
+	i := len(*list)
+	idx[term] = i
+	*list = append(*list, term)
+	return uint64(i)
 }
 
 func (t *tables) blob(v any) int {
@@ -140,8 +154,8 @@ func (t *tables) trans(v []fsm.TaskTransition) int {
 	return i
 }
 
-// sref renders an observed state as (SR body applied checksum valid checksum_ok).
-func (t *tables) sref(st state.ClusterState) string {
+// sref interns an observed state (SR body applied checksum valid checksum_ok) and returns its id.
+func (t *tables) sref(st state.ClusterState) uint64 {
 	body := st.Clone()
 	body.AppliedRaftIndex = 0
 	body.Checksum = ""
@@ -161,8 +175,12 @@ func (t *tables) sref(st state.ClusterState) string {
 	if sum, err := state.Checksum(st); err == nil && sum == st.Checksum {
 		ckok = true
 	}
-	return vh.App("SR", vh.N(uint64(i)), vh.N(st.AppliedRaftIndex), vh.HexS(st.Checksum), vh.B(valid), vh.B(ckok))
+	return intern(&t.srefs, t.srefIdx, vh.App("SR", vh.N(uint64(i)), vh.N(st.AppliedRaftIndex), str(st.Checksum), vh.B(valid), vh.B(ckok)))
 }
+
+// some / none of an optional interned id: 0 = None, id+1 = Some id
+func someID(id uint64) string { return vh.N(id + 1) }
+func noID() string            { return "0" }
 
 // ---- running ---------------------------------------------------------------------------
 
@@ -210,14 +228,18 @@ func resultClass(r fsm.ApplyResult) uint64 {
 }
 
 func (t *tables) coqResult(r fsm.ApplyResult) string {
+	return vh.N(t.result(r))
+}
+
+func (t *tables) result(r fsm.ApplyResult) uint64 {
 	ts := vh.ListOf(r.TaskTransitions, func(x fsm.TaskTransition) string {
 		id := x.Before.TaskID
 		if !x.BeforeValid {
 			id = x.After.TaskID
 		}
-		return vh.App("TS", vh.HexS(id), vh.B(x.BeforeValid), vh.B(x.AfterValid))
+		return vh.App("TS", str(id), vh.B(x.BeforeValid), vh.B(x.AfterValid))
 	})
-	return vh.App("Rs", vh.N(resultClass(r)), vh.HexS(r.Reason), vh.N(r.Revision), vh.N(r.AppliedRaftIndex), ts, vh.N(uint64(t.trans(r.TaskTransitions))))
+	return intern(&t.results, t.resIdx, vh.App("Rs", vh.N(resultClass(r)), str(r.Reason), vh.N(r.Revision), vh.N(r.AppliedRaftIndex), ts, vh.N(uint64(t.trans(r.TaskTransitions)))))
 }
 
 type runner struct {
@@ -238,14 +260,14 @@ func newRunner(t *tables) *runner {
 
 func (r *runner) storeRef() string {
 	if !r.store.has {
-		return vh.None()
+		return noID()
 	}
 	st, err := state.Decode(r.store.data)
 	if err != nil {
 		// a persisted file that does not decode: report an invalid reference
-		return vh.Some(vh.App("SR", "0", "0", vh.HexS("undecodable"), "false", "false"))
+		return someID(intern(&r.t.srefs, r.t.srefIdx, vh.App("SR", "0", "0", str("undecodable"), "false", "false")))
 	}
-	return vh.Some(r.t.sref(st))
+	return someID(r.t.sref(st))
 }
 
 // batch applies log[from:to] in one ApplyBatch and renders the step observation.
@@ -260,15 +282,15 @@ func (r *runner) batch(log []entry, from, to, mode int) (string, bool) {
 	r.store.mode = 0
 	r.trace = append(r.trace, res.Results...)
 	results := vh.ListOf(res.Results, r.t.coqResult)
-	final := vh.None()
+	final := noID()
 	if err == nil {
-		final = vh.Some(r.t.sref(res.FinalState))
+		final = someID(r.t.sref(res.FinalState))
 	}
-	saved := vh.None()
+	saved := noID()
 	if r.store.lastSaved != nil {
-		saved = vh.Some(r.t.sref(*r.store.lastSaved))
+		saved = someID(r.t.sref(*r.store.lastSaved))
 	}
-	pub := r.t.sref(r.sm.Snapshot(context.Background()))
+	pub := vh.N(r.t.sref(r.sm.Snapshot(context.Background())))
 	return vh.App("SO", "0", vh.N(uint64(to-from)), vh.N(uint64(mode)), results, vh.B(err != nil), final, saved, pub, r.storeRef(), vh.B(r.sm.IsDegraded())), err != nil
 }
 
@@ -280,8 +302,8 @@ func (r *runner) restart(cursor int) string {
 	}
 	lerr := sm.Load(context.Background())
 	r.sm = sm
-	pub := r.t.sref(sm.Snapshot(context.Background()))
-	return vh.App("SO", "1", vh.N(uint64(cursor)), "0", "[]", vh.B(lerr != nil), vh.None(), vh.None(), pub, r.storeRef(), vh.B(sm.IsDegraded()))
+	pub := vh.N(r.t.sref(sm.Snapshot(context.Background())))
+	return vh.App("SO", "1", vh.N(uint64(cursor)), "0", "[]", vh.B(lerr != nil), noID(), noID(), pub, r.storeRef(), vh.B(sm.IsDegraded()))
 }
 
 // scenario interprets steps over the log; robust against any steps / log length.
@@ -361,7 +383,8 @@ func run(in input) vh.Result {
 	for _, sc := range in.Scens {
 		scens = append(scens, vh.List(newRunner(t).scenario(log, sc)))
 	}
-	coq := vh.App("C18Case", vh.List(t.bodies), entries, vh.List(ref), vh.List(scens))
+	initRef := vh.N(t.sref(newRunner(t).sm.Snapshot(context.Background())))
+	coq := vh.App("C18Case", vh.List(t.bodies), vh.List(t.srefs), vh.List(t.results), initRef, entries, vh.List(ref), vh.List(scens))
 
 	kinds := map[string]bool{}
 	for _, e := range log {
